@@ -107,6 +107,23 @@ def run(ctx):
         if not ok:
             res.find(key, ei.loc(gate_arm["sp"]), "the gate arm of expand_inner no longer calls %s: calibration parameters are not substituted" % need, "`DEFCAL RX(%t) 0: RZ(%t) 0` then `RX(1) 0` expands to RZ(%t) 0")
 
+    # the substitution is applied to every expression handed out by apply_to_expressions: in the closure that calls
+    # substitute_variables the call (and the store of its result) is unconditional
+    key = "K7|substitution-unconditional"
+    subs_fns = [g for g in db.closures_of(ei) if any(c and callee_path(c) == EXPRESSION + "::substitute_variables" for bb, t, c in g.calls())]
+    ok = False
+    detail = {"closures": len(subs_fns)}
+    for g in subs_fns:
+        for bb, t, c in g.calls():
+            if c and callee_path(c) == EXPRESSION + "::substitute_variables":
+                cds = g.control_deps(bb, transitive=False)
+                detail["conditions"] = len(cds)
+                # the result is stored through the closure's &mut Expression parameter on every path
+                ok = not cds and all(bb in g.dominators().get(rb, set()) for rb in g.return_blocks())
+    res.site(key, True, dict(detail, verdict="ok" if ok else "VIOLATION"))
+    if not ok:
+        res.find(key, ei.loc(gate_arm["sp"]), "calibration parameters are substituted into a body expression only under an additional condition (%s)" % detail, "`DEFCAL RX(%t) 0: RZ(cos(%t)) 0` then `RX(1) 0`: the parameter inside the function call is not substituted")
+
     # ---- R1c positional pairing: a zip of calibration-side and gate-side sequences must pair *unfiltered* sequences
     # (filtering one side before the zip shifts the pairing); filtering after the zip is fine
     SHIFTING = {"filter", "filter_map", "skip", "skip_while", "step_by", "rev", "flat_map", "flatten", "take_while", "dedup", "chain"}
@@ -241,6 +258,31 @@ def run(ctx):
     res.site(key, True, {"recursive_calls": len(rec), "push_unmatched": len(pushes), "verdict": "ok" if ok else "VIOLATION"})
     if not ok:
         res.find(key, rei.loc(), "recursively_expand_inner does not re-expand every instruction of an expansion and push unmatched ones", "a calibration whose body contains another calibrated gate is expanded only one level")
+    # ---- the two public entry points return what expand_calibrations_inner built, on every path
+    for name in ("expand_calibrations", "expand_calibrations_with_source_map"):
+        p_ = [f for f in db.fns if f.path == "quil_rs::program::Program::" + name]
+        key = "K4|entry-returns-inner-result|" + name
+        if len(p_) != 1:
+            res.missing_anchor("Program::" + name)
+            continue
+        p_ = p_[0]
+        from qv.engine import fn_expr_operand as _op, walk_expr as _wx
+        from qv.props.common import aggregates as _aggs
+        inner_calls = [(bb, t) for bb, t, c in p_.calls() if c and c.get("name") == "expand_calibrations_inner"]
+        bad = []
+        oks = [s_ for bb, s_ in _aggs(p_) if s_["rv"]["a"]["path"] == "std::result::Result" and s_["rv"]["a"]["variant"] == "Ok"]
+        for s_ in oks:
+            e = _op(p_, s_["rv"]["ops"][0])
+            prog = e[1][0] if e[0] == "tuple" else e
+            ns = []
+            _wx(prog, ns.append)
+            if not any(n[0] == "call" and n[1].endswith("::expand_calibrations_inner") for n in ns):
+                bad.append(str(prog[:2])[:80])
+        direct = any(t["dest"]["l"] == 0 and not t["dest"]["pr"] for bb, t in inner_calls)
+        ok = len(inner_calls) == 1 and not bad and (bool(oks) or direct)
+        res.site(key, True, {"inner_calls": len(inner_calls), "other_success_returns": bad, "verdict": "ok" if ok else "VIOLATION"})
+        if not ok:
+            res.find(key, p_.loc(), "Program::%s has a success return that is not the result of expand_calibrations_inner (%s): the two entry points can return different programs" % (name, bad or "no call"), "a program whose only calibrations are DEFCAL MEASURE: one entry point expands MEASURE, the other returns the program unchanged")
     res.explanation = "Type-directed coverage of the qubit and parameter substitution over the %d body-capable Instruction variants (HIR pattern bindings against ADT field types), dependence of the measurement arm on the measurement's fields, a contradiction check between the two sibling target rewrites, and agreement of the instruction-output effects on both sides of every build_source_map test." % len(bc)
     res.assumptions = ["a calibration body contains only body-capable instruction kinds"]
     return res
